@@ -1,8 +1,10 @@
 package block
 
+// thorough: two notifications, three idle intervals, longer horizon (arbitrary durations for 3
+// productions was tried as well: does not finish in 90 min)
 var (
-	zzC17SymbolicProductions = 3
+	zzC17SymbolicProductions = 2
 	zzC17Notifications       = 2
 	zzC17Intervals           = 3
-	zzC17Horizon             = int64(90)
+	zzC17Horizon             = int64(75)
 )
